@@ -17,8 +17,8 @@ Null == P!Null
 
 (* ---------- statement trees ---------- *)
 (* Leaves: what a return statement returns, as a sequence of literal types (a non-tuple occupies position 1).   *)
-RetLeaves == << <<"int">>, <<"float">>, <<"str">>, <<"bool">>, <<"none">>, <<"int", "str">>, <<"int", "float", "none">>, <<"int">>, <<"str", "int">> >>
-NLeaf == Len(RetLeaves)      \* leaf 8 is `-1` (a unary expression); leaf 9 is leaf 6 with its positions swapped
+RetLeaves == << <<"int">>, <<"float">>, <<"str">>, <<"bool">>, <<"none">>, <<"int", "str">>, <<"int", "float", "none">>, <<"int">>, <<"str", "int">>, <<"none">> >>
+NLeaf == Len(RetLeaves)      \* leaf 8 is `-1` (a unary expression); leaf 9 is leaf 6 with its positions swapped; leaf 10 is a bare `return`
 Ret(v) == [k |-> "ret", v |-> v, b |-> <<>>]
 Comp(k, bodies) == [k |-> k, v |-> 0, b |-> bodies]
 
@@ -56,11 +56,12 @@ Bodies(tier) ==
   LET all == 1..NLeaf
       small == {1, 3, 5, 6, 7, 9}
       tiny == {1, 5, 6}
-  IN B0(all) \cup Compounds(B0(all), small) \cup Conds(all) \cup Elifs(small)
+      exprs == all \ {10}       \* a bare return has no expression to put into a conditional expression
+  IN B0(all) \cup Compounds(B0(all), small \cup {10}) \cup Conds(exprs) \cup Elifs(small)
      \cup ElseClauses(small)
      \cup { <<>> }                                                     \* no return statement at all
      \cup Compounds(Compounds(B0(tiny), {2}) \cup Conds(tiny), {7})    \* depth 2
-     \cup (IF tier = "quick" THEN {} ELSE Compounds(Compounds(B0(small), small), small) \cup Elifs(all))
+     \cup (IF tier = "quick" THEN {} ELSE Compounds(Compounds(B0(small), small), small) \cup Elifs(exprs))
 
 (* ---------- annotated functions ---------- *)
 T0(k) == P!T0(k)
@@ -89,7 +90,7 @@ Universe(tier) ==
   \* inferred results of a function whose docstring documents one result (the description must not change what is inferred)
   \cup { [mode |-> "inf", ret |-> NoTerm, style |-> d[1], ndoc |-> 1, named |-> d[3], body |-> b]
          : d \in { <<"GOOGLE", 1, FALSE>>, <<"REST", 1, FALSE>>, <<"NUMPYDOC", 1, FALSE>>, <<"NUMPYDOC", 1, TRUE>> },
-           b \in B0(1..NLeaf) \cup Conds(IF tier = "quick" THEN {1, 3, 5, 6, 7, 9} ELSE 1..NLeaf) }
+           b \in B0(1..NLeaf) \cup Conds(IF tier = "quick" THEN {1, 3, 5, 6, 7, 9} ELSE 1..9) }
   \* no return statement at all, results known from the docstring only: they are named like any other unnamed result
   \cup { [mode |-> "inf", ret |-> NoTerm, style |-> d[1], ndoc |-> d[2], named |-> FALSE, body |-> <<>>]
          : d \in { <<"GOOGLE", 1, FALSE>>, <<"REST", 1, FALSE>>, <<"NUMPYDOC", 1, FALSE>>, <<"NUMPYDOC", 2, FALSE>>, <<"NUMPYDOC", 3, FALSE>> } }
